@@ -156,7 +156,7 @@ impl Stage for Prefixes {
 pub fn spec() -> PropertySpec {
     PropertySpec {
         id: "C19",
-        stages: vec![Box::new(Edge), Box::new(Prefixes), Box::new(Wrap)],
+        stages: vec![Box::new(Edge), Box::new(Prefixes), Box::new(Wrap), Box::new(super::maint::C19Wire)],
         assumptions: vec!["Component tier uses the re-exported AIDGenerator/MIDGenerator (hook H2). The 2^40 action-id wrap is out of reach of enumeration.".into()],
         explanation: "Oracle: uniqueness (bitset over 2^24 message ids), constant 5-byte prefix equal to the generator's action id, pairwise distinct prefixes across activities.".into(),
     }
